@@ -173,4 +173,14 @@ example :
 theorem fact_C04_onRunStart_sequence : Generated.onRunStartStateDBCalls =
     [("CacheCtxForPrecompile", "-"), ("SavePrecompileCalledJournalChange", "-"), ("CommitCacheCtx", "-")] := by decide
 
+/-- the dirty-count bookkeeping of the journal, as the model's `append` / `revertTo` / `unDirty` were written from it: `append`
+    increments the count of the entry's `Dirtied()` address; `Revert` walks the entries from the end down to the snapshot, reverts
+    each, decrements the count of its address and deletes the address from the map exactly when the count reaches zero (`== 0`: a
+    count driven below zero after an intermediate flush keeps the address — see the known finding C04-lost-write) -/
+theorem fact_C04_journal_dirty_count_bookkeeping :
+    Generated.journalBookkeeping =
+      ["journal.append = assign:j.entries ; call:append ; if:addr != nil ; assign:addr ; call:entry.Dirtied ; ++:j.dirties[*addr]",
+       "journal.Revert = for:i >= snapshot ; assign:i ; call:len ; --:i ; call:j.entries[i].Revert ; if:addr != nil ; assign:addr ; call:j.entries[i].Dirtied ; if:j.dirties[*addr] == 0 ; --:j.dirties[*addr] ; call:delete ; assign:j.entries"] := by
+  decide +kernel
+
 end Nibiru.SDB
